@@ -134,7 +134,10 @@ type ctok struct {
 	s    string
 }
 
-func clex(src string) ([]ctok, error) {
+func clex(src string) ([]ctok, error) { return clexSfx(src, false) }
+
+// clexSfx: keepU keeps a `u` / `U` suffix of a number in its token ("5u")
+func clexSfx(src string, keepU bool) ([]ctok, error) {
 	var out []ctok
 	i := 0
 	for i < len(src) {
@@ -148,8 +151,13 @@ func clex(src string) ([]ctok, error) {
 				j++
 			}
 			num := src[i:j]
+			hasU := false
 			for j < len(src) && (src[j] == 'u' || src[j] == 'U' || src[j] == 'l' || src[j] == 'L') {
+				hasU = hasU || src[j] == 'u' || src[j] == 'U'
 				j++
+			}
+			if keepU && hasU {
+				num += "u"
 			}
 			out = append(out, ctok{1, num})
 			i = j
@@ -276,10 +284,14 @@ func (p *cparser) unary() (string, error) {
 	p.next()
 	if t.kind == 1 {
 		v := new(big.Int)
-		if _, ok := v.SetString(t.s, 0); !ok {
+		digits, sfx := t.s, ""
+		if strings.HasSuffix(digits, "u") {
+			digits, sfx = strings.TrimSuffix(digits, "u"), "u"
+		}
+		if _, ok := v.SetString(digits, 0); !ok {
 			return "", fmt.Errorf("bad number %q", t.s)
 		}
-		return v.String(), nil
+		return v.String() + sfx, nil
 	}
 	name := t.s
 	if n, ok := cIdentNames[name]; ok {
@@ -310,6 +322,23 @@ func (p *cparser) unary() (string, error) {
 // readCExpr parses a complete C expression.
 func readCExpr(src string) (string, error) {
 	toks, err := clex(src)
+	if err != nil {
+		return "", err
+	}
+	p := &cparser{toks: toks}
+	e, err := p.expr(1)
+	if err != nil {
+		return "", err
+	}
+	if p.pos != len(toks) {
+		return "", fmt.Errorf("trailing tokens after expression: %v", toks[p.pos:])
+	}
+	return e, nil
+}
+
+// readCExprSfx is readCExpr that keeps the `u` suffix of the literals (`5u`).
+func readCExprSfx(src string) (string, error) {
+	toks, err := clexSfx(src, true)
 	if err != nil {
 		return "", err
 	}
@@ -361,6 +390,7 @@ type probe struct {
 	src  string // method source
 	op   string // op line for the Lean driver
 	stmt bool   // extract the op-assign statement instead of the return expression
+	sfx  bool   // read the expression with the literal suffixes kept (signed operands)
 }
 
 var probeTypes = []string{"u8", "u16", "u32", "u64"}
@@ -427,6 +457,31 @@ func buildProbes() []probe {
 				nm := name("b")
 				src := fmt.Sprintf("pri func s.%s(x: %s%s, y: %s%s) %s {\n    return %s %s %s\n}\n", nm, T, sp.xT, T, sp.yT, out, l, sp.wuffs, r)
 				ps = append(ps, probe{name: nm, src: src, op: fmt.Sprintf("lower %s %s %s %s", sp.lean, ty, lk, rk)})
+			}
+		}
+	}
+	// signed operand types: the constant operand is written without the `u`
+	// suffix, whichever side it is on (Model/CSigned.lean lowerSigned,
+	// Props/C04Signed.lean signed_node_correct)
+	for _, sp := range [][3]string{{"+", "add", ""}, {"-", "sub", ""}, {"*", "mul", ""}, {"<", "lt", "b"}, {"<=", "le", "b"},
+		{">", "gt", "b"}, {">=", "ge", "b"}, {"==", "eq", "b"}, {"<>", "ne", "b"}} {
+		for _, ty := range []string{"i8", "i16", "i32", "i64"} {
+			T := "base." + ty + "[-5 ..= 5]"
+			for _, k := range []string{"vv", "vc", "cv"} {
+				l, r, lk, rk := "args.x", "args.y", "v", "v"
+				if k == "vc" {
+					r, rk = "3", "c3"
+				}
+				if k == "cv" {
+					l, lk = "4", "c4"
+				}
+				out := "base." + ty
+				if sp[2] == "b" {
+					out = "base.bool"
+				}
+				nm := name("g")
+				src := fmt.Sprintf("pri func s.%s(x: %s, y: %s) %s {\n    return %s %s %s\n}\n", nm, T, T, out, l, sp[0], r)
+				ps = append(ps, probe{name: nm, src: src, sfx: true, op: fmt.Sprintf("lowersigned %s %s %s %s", sp[1], ty, lk, rk)})
 			}
 		}
 	}
@@ -562,6 +617,13 @@ func cFuncBody(csrc, fn string) (string, bool) {
 	}
 }
 
+func readProbeExpr(p probe, src string) (string, error) {
+	if p.sfx {
+		return readCExprSfx(src)
+	}
+	return readCExpr(src)
+}
+
 func shapeCheck(r *rec, tc *toolchain) {
 	probes := buildProbes()
 	var kept []probe
@@ -601,7 +663,7 @@ func shapeCheck(r *rec, tc *toolchain) {
 			j := strings.LastIndex(body, ";")
 			if i < 0 || j < i {
 				got = "no-return"
-			} else if e, err := readCExpr(body[i+7 : j]); err != nil {
+			} else if e, err := readProbeExpr(p, body[i+7:j]); err != nil {
 				got = "unreadable: " + strings.Join(strings.Fields(body[i+7:j]), " ")
 			} else {
 				got = e
